@@ -416,6 +416,28 @@ def boundary_errors(out, truth):
     return errs
 
 
+_CC = []
+
+
+def te_chunked(dump):
+    import re
+    m = re.search(r"SH=\[([^\]]*)\]", dump)
+    for h in (m.group(1).split("/") if m and m.group(1) else []):
+        f = h.split(":")
+        try:
+            if f[0] != "-" and bytes.fromhex(f[0]).lower() == b"transfer-encoding" and f[1] != "-" and b"chunked" in bytes.fromhex(f[1]).lower().replace(b"\x00", b""):      # the library's test skips NUL bytes (bstr_index_of_c_nocasenorzero)
+                return True
+        except ValueError:
+            pass
+    return False
+
+
+def CODING_CHUNKED():
+    if not _CC:
+        _CC.append(vf.gen_const("c_HTP_CODING_CHUNKED"))
+    return _CC[0]
+
+
 def accounting_errors(case, out):
     """every input: rel == sum of REQUEST_BODY_DATA payload lengths, sel == sum of RESPONSE_BODY_DATA payload lengths, per transaction.
     A NULL-data event made by a gap call carries the gap length: it is the call's consumed count (no payload is printed)."""
@@ -454,6 +476,26 @@ def accounting_errors(case, out):
             v = ival(d, key)
             if v is not None and v != total.get(i, 0):
                 errs.append("transaction %d: %s=%d but the %s callbacks received %d bytes" % (i, key, v, "REQUEST_BODY_DATA" if hook == 5 else "RESPONSE_BODY_DATA", total.get(i, 0)))
+            # message length vs entity length (no content coding in this configuration): a body that is not chunk-coded is delivered as it is
+            # taken from the wire, so both counts agree; chunk framing only adds wire bytes
+            ml, tc = ival(d, "rml" if hook == 5 else "sml"), ival(d, "rtc" if hook == 5 else "stc")
+            # (only for histories in which no callback refuses: a refused piece is counted in entity_len before the callback ran and the message
+            # count of the state function is not reached any more -- the direction is dead from there on)
+            refused = any(e.split(":")[-1] in ("2", "3") for e in case.split("\t")[2].split(";") if ":" in e)
+            done = ival(d, "rp" if hook == 5 else "sp") == 5        # lengths are read at *_COMPLETE (HTP_REQUEST_COMPLETE = HTP_RESPONSE_COMPLETE = 5)
+            if v is not None and ml is not None and tc is not None and not refused and done:
+                if tc != CODING_CHUNKED() and ml != v:
+                    cl = ival(d, "rcl") if hook == 5 else None
+                    # listed finding K3: the request side counts message_len in its body states only; bytes that REQ_FINALIZE / the HTTP/0.9 state hand to
+                    # the body callbacks as 'unexpected request body' reach entity_len but not message_len (the declared body itself was fully counted)
+                    tag = "[K3-request-unexpected-body-not-counted] " if (hook == 5 and ml < v and ml == max(cl if cl is not None else -1, 0)) else ""
+                    if hook == 14 and ml > v and te_chunked(d):
+                        # listed finding K2: a chunk-coded response whose size line is invalid falls back to identity-until-close; the size line is counted twice
+                        tag = "[K2-invalid-chunk-length-fallback] "
+                    errs.append("%stransaction %d: %s=%d but %s=%d for a body that is not chunk-coded" % (tag, i, "rml" if hook == 5 else "sml", ml, key, v))
+                if tc == CODING_CHUNKED() and ml < v:
+                    tag = "[K3-request-unexpected-body-not-counted] " if hook == 5 else ""       # same finding: junk after a chunked request body
+                    errs.append("%stransaction %d: %s=%d is less than %s=%d" % (tag, i, "rml" if hook == 5 else "sml", ml, key, v))
     return errs
 
 
@@ -613,6 +655,13 @@ def check(ctx):
             kid = matches_known(cases[i])
             if kid:
                 continue
+            kids = set(k["id"] for k in vf.known_for(PROP, "known"))
+            tags = [e[1:e.index("]")] if e.startswith("[K") and "]" in e else None for e in errs]
+            if all(t is not None and t in kids for t in tags):
+                kk = ctx.cov.setdefault("oracle_failures_of_listed_findings", {})
+                for t in set(tags):
+                    kk[t] = kk.get(t, 0) + 1
+                continue
             if reported < 3:
                 reported += 1
                 sc = cases[i]
@@ -629,8 +678,9 @@ def check(ctx):
                                                     "errors": serr[:8], "truth": _truth_json(truth), "implementation": (so[0] if so else o)[-4000:],
                                                     "model_on_original": model[i][-2000:] if i < len(model) else None,
                                                     "theorem": "Properties_C06.v: inside the premises the model cannot show this"})
-    ctx.cov["oracle"] = {"evaluated": sum(classes.values()), "failed": nfail, "classes": classes}
-    ctx.log("oracle evaluated on %d outputs of the implementation (%s), %d failed" % (sum(classes.values()), classes, nfail))
+    n_eval = classes["exchange"] + classes["boundary"] + classes["general"]
+    ctx.cov["oracle"] = {"evaluated": n_eval, "failed": nfail, "classes": classes}
+    ctx.log("oracle evaluated on %d outputs of the implementation (%s), %d failed" % (n_eval, classes, nfail))
     # (iii) known findings / regression witnesses
     run_known(ctx)
     vf.note_distinct(ctx, keys)
@@ -648,7 +698,8 @@ def check(ctx):
     return vf.standard_epilogue(ctx, pr, "make Props/Properties_C06.vo (coqc 8.16.1) + ./check C06", rule,
                                 ["theorems are stated on the body-state functions of the model iterated over the TCP chunks (state-function level), callbacks answering OK; "
                                  "the whole-connection statement (cp_run) is tied by the ground-truth oracle on the implementation",
-                                 "response side: chunk-size lines satisfy bd_res_line_ok (data_probe_chunk_length cannot fire inside the line: known finding K1 otherwise)",
+                                 "response side: chunk-size lines satisfy the EXTRACTED premise bd_res_line_ok (data_probe_chunk_length cannot fire inside the line: known finding K1 otherwise); "
+                                 "exchanges outside it or with the C03/F1 LF-CR hazard are compared with the model but not judged by the oracle",
                                  "decompression off (as in the S-connp configuration); C07 covers content codings"])
 
 
